@@ -45,6 +45,17 @@ func (c *Class) classIdentifierProcessing(
 	ctx.StartDefineStatic()
 	defer ctx.EndDefineStatic()
 
+	// the singleton body has its own visibility section: it starts public and
+	// leaves the enclosing section as it found it
+	outerIsPrivate, outerIsProtected := ctx.IsPrivate, ctx.IsProtected
+	ctx.EndPrivate()
+	ctx.EndProtected()
+
+	defer func() {
+		ctx.IsPrivate = outerIsPrivate
+		ctx.IsProtected = outerIsProtected
+	}()
+
 	for {
 		nextT, err := p.Read()
 		if err != nil {
